@@ -143,3 +143,11 @@ class NondeterministicFiniteAutomaton(EpsilonNFA):
         if to_symbol(symb_by) == epsilon.Epsilon():
             raise InvalidEpsilonTransition
         return super().add_transition(s_from, symb_by, s_to)
+
+    def _register_transition_function(self):
+        # A transition function given to the constructor obeys the same
+        # rule as add_transition
+        for _, symb_by, _ in self._transition_function:
+            if symb_by == epsilon.Epsilon():
+                raise InvalidEpsilonTransition
+        super()._register_transition_function()
